@@ -1190,7 +1190,7 @@ func (fr *Frame) frameCheck(spec *FuncSpec, out *State) {
 	nx0 := "$next!0"
 	nx1 := e.next(out)
 	for _, k := range names {
-		if k == "$next" || strings.HasPrefix(k, "Seen_") || strings.HasPrefix(k, "C_") || strings.HasPrefix(k, "Bx_") {
+		if k == "$next" || strings.HasPrefix(k, "Seen") || strings.HasPrefix(k, "C_") || strings.HasPrefix(k, "Bx_") {
 			continue
 		}
 		if owner, ok := fr.repComps()[k]; ok && owner != fr.pkgName() {
@@ -1328,9 +1328,14 @@ func (fr *Frame) atAsserts(callee string, args []*Val, sig *types.Signature, st 
 			}
 			root.specVars[fmt.Sprintf("arg%d", i)] = &vv
 		}
+		// local names denote the definition that dominates the call site; if none does (a value defined on one
+		// path only), the latest definition executed so far
 		sb := root.curBlock
-		root.curBlock = nil
 		t, err := root.evalClause(a.Clause, st, root.entry, nil, nil)
+		if err != nil && strings.Contains(err.Error(), "unbound:") {
+			root.curBlock = nil
+			t, err = root.evalClause(a.Clause, st, root.entry, nil, nil)
+		}
 		root.curBlock = sb
 		root.specVars = saved
 		if err != nil {
